@@ -151,6 +151,24 @@ def run(rep, tier, seed):
                 cur_sess.append(a)
             if cur_sess:
                 cs["sessions"].append(cur_sess)
+            # what the user did BEFORE asking for completion: other helpers of the library used earlier in the same call (before
+            # the set-up key: invisible to the projection) or in an earlier call of their own (no experiment: meta None) - an
+            # incremental history search left by Escape / C-g / Enter, a listing, an earlier menu that was interrupted
+            if ci % 3 == 0:
+                cs["sources"] = [{"name": "main", "kind": "mem", "lines": ["old one", "git checkout", "abc"]}]
+                PRE_IN = [[b"\x12", b"o", b"\x07"], [b"\x12", b"abc", b"\x1b"], [b"\x13", b"\x07"], [b"\x12", b"g", b"\x12", b"\x07"], [b"\x1b?"], [b"zz", b"\t", b"\x03"]]
+                PRE_CALL = [[b"\x12", b"abc", b"\r"], [b"\x12", b"o", b"\r"], [b"x", b"\x12", b"\r"], [b"\x10", b"\r"]]
+                sessions2, ms2 = [], []
+                for sess1, m1 in zip(cs["sessions"], ms):
+                    r = rng.random()
+                    if r < 0.35 and mode == "emacs":
+                        sess1 = [keys(k) for k in rng.choice(PRE_IN)] + sess1
+                    elif r < 0.6 and mode == "emacs":
+                        sessions2.append([keys(k) for k in rng.choice(PRE_CALL)])
+                        ms2.append(None)
+                    sessions2.append(sess1)
+                    ms2.append(m1)
+                cs["sessions"], ms = sessions2, ms2
             cases.append(cs)
             metas[cs["id"]] = ms
     log("C14: %d experiments in %d cases" % (len(exps), len(cases)))
@@ -165,7 +183,7 @@ def run(rep, tier, seed):
             if "s" in e:
                 bys.setdefault(e["s"], []).append(e)
         for s in sorted(bys):
-            if s < len(metas[cs["id"]]):
+            if s < len(metas[cs["id"]]) and metas[cs["id"]][s] is not None:
                 lines += project(cs, bys[s], [metas[cs["id"]][s]])
         per[cs["id"]] = lines
         for ln, raw in lines:
@@ -207,7 +225,7 @@ def replay(rep, rp):
             bys.setdefault(e["s"], []).append(e)
     lines = []
     for s in sorted(bys):
-        if s < len(rp["metas"]):
+        if s < len(rp["metas"]) and rp["metas"][s] is not None:
             lines += project(cs, bys[s], [rp["metas"][s]])
     rej = validate_cases(rep, os.path.join(wd, "tv"), "CompletionTrace", "CompletionTrace.cfg", {cs["id"]: lines})
     for cid in rej:
